@@ -184,6 +184,9 @@ def c03(seed, tier):
         strings += frontier
     if not thorough:
         strings = strings[:58] + rng.sample(strings[58:400], 120) + rng.sample(strings[400:], 150)
+    else:
+        # every string up to 3 units, a sample of the longer ones (the in-Coq evaluation of a case costs ~10 ms per field)
+        strings = strings[:400] + rng.sample(strings[400:], 1100)
     for unit in RUNE_UNITS:
         for n in (9, 10, 11, 63, 64, 65):
             strings.append(unit * n)
